@@ -162,5 +162,7 @@ def marker_for_line(lines, idx):
             return m.group(1), m.group(2).strip()
         if SP_CLOSE in l or SP_OPEN in l:
             return None
+        if not l.strip():
+            return None     # markers in prelude text sit directly above their clause
         k -= 1
     return None
